@@ -194,8 +194,6 @@ def t7_moved_class_with_moved_base() -> Iterator[Dict[str, Any]]:
                        mod("m3", 1, ops=[frm("p.m1", "C", "RC")], all=["RC"])], "T7", form=form)
 
 
-FAMILIES = [t1_base_chains, t1_exceptions, t2_star, t3_reexport, t4_cycles, t5_duplicates, t6_nested_packages,
-            t7_moved_class_with_moved_base, t8_prefix_roots, t9_reexport_while_origin_processing]
 
 
 def all_projects(quick: bool) -> List[Dict[str, Any]]:
@@ -337,3 +335,15 @@ def t_c04_class_members() -> Iterator[Dict[str, Any]]:
     chain = flat(cls("Base", body=flat(cls("In"), var("v"))), cls("Mid", "Base"), cls("Leaf", "Mid"))
     yield project([mod("p", pkg=True), mod("a", 1, ops=chain), mod("b", 1, ops=flat(frm("a", "Leaf", lvl=1), cls("X", "Leaf.In"), alias("vv", "Leaf.v")))],
                   "C04", members="chain")
+
+
+def t10_double_reexport() -> Iterator[Dict[str, Any]]:
+    """T10: one class re-exported by TWO modules (outside 'objects re-exported by a single module': its location may
+       depend on the order) and a consumer naming the defining module."""
+    yield project([mod("p", pkg=True), mod("m0", 1, ops=flat(cls("A"))),
+                   mod("m1", 1, ops=[frm("p.m0", "A")], all=["A"]), mod("m2", 1, ops=[frm("p.m0", "A")], all=["A"]),
+                   mod("m3", 1, ops=flat(frm("p.m0", "A", "RA"), cls("F", "RA"), cls("G", "F")))], "T10")
+
+
+FAMILIES = [t1_base_chains, t1_exceptions, t2_star, t3_reexport, t4_cycles, t5_duplicates, t6_nested_packages,
+            t7_moved_class_with_moved_base, t8_prefix_roots, t9_reexport_while_origin_processing, t10_double_reexport]
